@@ -1,0 +1,21 @@
+// Copyright (c) Tailscale Inc & AUTHORS
+// SPDX-License-Identifier: BSD-3-Clause
+
+//go:build verif
+
+package server
+
+import (
+	"context"
+
+	"github.com/aws/aws-sdk-go-v2/service/s3"
+	"github.com/tailscale/setec/db"
+)
+
+// VerifPeriodicBackup runs the periodic backup loop for d against the given
+// S3 client and bucket until ctx ends. It exists so the simulation harness
+// can drive the unexported loop under a virtual clock without a network.
+func VerifPeriodicBackup(ctx context.Context, d *db.DB, c *s3.Client, bucket string) {
+	s := &Server{db: d, backupClient: c, backupBucket: bucket}
+	s.periodicBackup(ctx)
+}
